@@ -21,6 +21,17 @@ func verifStep(vm *VM, ip int, op code.Opcode, arg int) {
 	}
 }
 
+// VerifRunHook, when set, is called when Run starts ("start") and, after the
+// machine has been restored, when it returns ("end") - for the recursive
+// calls which run user-defined functions too.
+var VerifRunHook func(vm *VM, ev string)
+
+func verifRun(vm *VM, ev string) {
+	if h := VerifRunHook; h != nil {
+		h(vm, ev)
+	}
+}
+
 // VerifBytecode returns the bytecode the machine is interpreting right now.
 func (vm *VM) VerifBytecode() code.Instructions { return vm.bytecode }
 
